@@ -368,7 +368,7 @@ def ob_targets_vs_ninja(dim):
             if nm in by_name:
                 for f in by_name[nm]['filename']: check(os.path.relpath(f, c.bld) in g.producer, 'the name listed for an alias / run target is a statement of build.ninja')
         inst = {os.path.normpath(k): v for k, v in c.installed.items()}
-        exp_inst = {ab('c1.txt'): os.path.join(c.it.environment.coredata.optstore.get_value_for('prefix'), 'share', 'c1.txt')} if pr.installed_c else {}
+        exp_inst = {ab(pr.outs['C'][0]): os.path.join(c.it.environment.coredata.optstore.get_value_for('prefix'), 'share', 'c1.txt')} if pr.installed_c else {}
         check(inst == exp_inst, 'exactly the installed outputs are listed, with the destination install uses')
         if 'C' in by_name: check(by_name['C']['installed'] == pr.installed_c, 'the installed flag of a target')
         cover('done')
